@@ -82,6 +82,7 @@ namespace irx {
   struct Stats
   {
     long paths = 0, cut_bound = 0, cut_budget = 0, ended_assume = 0, ended_abort = 0, uncaught = 0, queries = 0, unknown = 0, forks = 0, insts = 0;
+    long infeasible_discarded = 0;
     long assert_checked = 0, assert_failed = 0, mem_errors = 0, ub_found = 0, uninit_reads = 0;
     double solver_s = 0;
   };
